@@ -614,19 +614,21 @@ def read_dip(d, text, items, absent=()):
         with DIP() as dip:
             dip.add_string(text)
             env = dip.parse()
-        data = env.data(Format.TYPE)
+        data = env.data(Format.NODE)
     except Exception as e:
         return ("fail", "load", "%s: %s" % (type(e).__name__, " ".join(str(e).split())[:160]))
     obs = {}
-    for name, t in data.items():
-        o = _py_obs(t.value)
-        if isinstance(t, BooleanType):
+    for name, node in data.items():
+        t = node.value                      # declared type from the node, value and unit from its value object
+        o = _py_obs(t.value if t is not None else None)
+        kw = getattr(node, "keyword", None)
+        if kw == "bool":
             kind, width, signed = "bool", None, None
-        elif isinstance(t, IntegerType):
-            kind, width, signed = "int", t.precision, not t.unsigned
-        elif isinstance(t, FloatType):
-            kind, width, signed = "float", t.precision, None
-        elif isinstance(t, StringType):
+        elif kw == "int":
+            kind, width, signed = "int", int(node.precision), not node.unsigned
+        elif kw == "float":
+            kind, width, signed = "float", int(node.precision), None
+        elif kw == "str":
             kind, width, signed = "str", None, None
         else:
             kind, width, signed = "other", None, None
